@@ -460,7 +460,7 @@ pub fn run(tier: &str, known: &mc::Known, lim: impl Fn(usize, usize, bool, u64) 
     let mut classes = BTreeSet::new();
     for (name, token) in tokens() {
         let sc = AuthScenario { name: name.clone(), token, requests: requests(), open: known.open_for("C15") };
-        let depth = if tier == "thorough" { 6 } else { 5 };
+        let depth = if tier == "thorough" { 8 } else { 5 };
         let stats = mc::explore(&sc, &lim(depth, 2, true, if tier == "thorough" { 400 } else { 30 }));
         eprintln!("[C15/{name}] states={} transitions={} depth={} classes={} known={} violations={}", stats.states, stats.transitions, stats.depth_completed, stats.classes.len(), stats.known.len(), stats.violations.len());
         for c in &stats.classes {
